@@ -253,6 +253,9 @@ class ConfigSaveReader:
         if flags is None:
             if block_id in self.blocks:
                 flags = self.blocks[block_id].flags
+            elif block_id in KNOWN_BLOCKS:
+                # a new block gets the flags known for its ID (the ones a strict load expects)
+                flags = KNOWN_BLOCKS[block_id]['flags']
             else:
                 flags = 0xE
 
